@@ -168,7 +168,7 @@ def run_case(case):
 
     def validate(nodes, rt, key, claimed, what, truth):
         try:
-            ok = if_branch_valid(nodes, rt, key, claimed)
+            ok = if_branch_valid(common.vary(nodes), rt, key, claimed)
             out = "True" if ok else "False"
         except Exception as e:  # noqa
             name = type(e).__name__
